@@ -134,8 +134,8 @@ def infiltration(
                 ToStore = 0
                 RunoffIni = 0
 
-    elif FieldMngt_Bunds == False:
-        # No bunds on field
+    if (FieldMngt_Bunds == False) or (FieldMngt_zBund <= 0.001):
+        # No bunds on field (or bunds too low to be considered)
         if Infl > prof.Ksat[0]:
             # Infiltration limited by saturated hydraulic conductivity of top
             # soil layer
